@@ -13,13 +13,13 @@ from tools.vlib import Outcome, sx
 from tools.props import c08_common as C
 
 MANIFEST = {
-    "level_text": "Coq theorems (Properties/C08.v, no axioms) about an executable model of the run/cache state machine shared by run_generate and BuildSystem::generate_bindings, instantiated with the fingerprint = exactly the fields hash_commands/hash_structs/hash_config serialise and with per-file views of the data the generators read: for every history of edits, file deletions, cache deletions and (un)forced runs under every discovery order, a non-forced run that reports success or up-to-date leaves every file of a forced generation in place, unless the final state lies in one of eight recorded classes (seven unhashed components, loss of a vouched file), each refuted on the faithful model by a computed three-step history; completeness of the class list (equal fingerprint and equal unhashed components give equal files); the repaired design (sound fingerprint + presence test) is sound for all histories. Tied to /repo on every run by replaying all edit/deletion histories of length <=2 (quick) / <=3 (thorough) through the real CLI binary and through BuildSystem::generate_at_build_time in fresh processes and comparing every step with the extracted model, and by the hash-partition test on .typecache.",
+    "level_text": "Coq theorems (Properties/C08.v, no axioms) about an executable model of the run/cache state machine shared by run_generate and BuildSystem::generate_bindings, instantiated with the fingerprint = exactly the fields hash_commands/hash_structs/hash_config serialise and with per-file views of the data the generators read: for every history of edits, file deletions, cache deletions and (un)forced runs under every discovery order, a non-forced run that reports success or up-to-date leaves every file of a forced generation in place, unless the final state lies in one of nine recorded classes (eight unhashed components, loss of a vouched file), each refuted on the faithful model by a computed three-step history; completeness of the class list (equal fingerprint and equal unhashed components give equal files); the repaired design (sound fingerprint + presence test) is sound for all histories. Tied to /repo on every run by replaying all edit/deletion histories of length <=2 (quick) / <=3 (thorough) through the real CLI binary and through BuildSystem::generate_at_build_time in fresh processes and comparing every step with the extracted model, and by the hash-partition test on .typecache.",
     "design_ref": "DESIGN.md section 5 C08, C14, C17; section 11 cache_sound",
     "level_note": "The model's file contents are views (the data a file is rendered from), not TypeScript text: that equal views give equal text and different views different text is checked differentially per edit class, not proved; SipHash collision freedom is assumed (fingerprint equality = combined_hash equality, checked by the partition test); struct declaration order inside types.ts follows hash order and is compared modulo line order (property C13); types reachable only through event payloads are not tracked by the types.ts view; edits are one representative per class on one base project per mode.",
     "technique": "Rocq/Coq proof over hand-written model + correspondence check (extracted OCaml vs real binary and Rust driver)"
 }
 
-RULE = ("histories: every sequence of length <=2 over the full alphabet and of length 3 over 8 hashed edits (quick), in addition length 3 over a "
+RULE = ("histories: every sequence of length <=2 over the full alphabet and of length 3 over 6 hashed edits (quick; 8 thorough), in addition length 3 over a "
         "17-op alphabet and 1500 sampled of length 4-6 per entry (thorough), alphabet = "
         "{one toggle edit per class, delete types.ts/commands.ts/events.ts/index.ts/.typecache}, each op followed by a non-forced "
         "run in a fresh process, on the CLI path and the build-script path, base project in mode none (all) and zod (length<=1 and "
@@ -42,9 +42,10 @@ CORE = ["cmd_add", "param_type", "ret_type", "field_add", "serde_rename", "serde
 SAFE = ["cmd_add", "param_type", "ret_type", "field_add", "enum_variant", "channel", "mode", "param_case"]
 
 
-def base_desc(mode):
+def base_desc(mode, viz=False):
     d = C.base_project()
     d["cfg"]["validation_library"] = mode
+    d["cfg"]["visualize_deps"] = bool(viz)
     return d
 
 
@@ -55,7 +56,7 @@ def sched_of(desc):
 
 def run_history(case):
     """Run one history through the real tool. Returns (model sexp, [per-run observation])."""
-    desc = base_desc(case["base"])
+    desc = base_desc(case["base"], case.get("viz"))
     steps = [["run", sched_of(desc), False, None]]
     obs = []
     with vlib.Sandbox("c08h") as sb:
@@ -81,7 +82,7 @@ def run_history(case):
                 steps.append(["set", C.sx_project(desc), C.sx_cfg(desc["cfg"])])
             steps.append(["run", sched_of(desc), False, None])
             obs.append(observe(w.run()))
-    base = base_desc(case["base"])
+    base = base_desc(case["base"], case.get("viz"))
     return sx([C.sx_project(base), C.sx_cfg(base["cfg"]), steps]), obs, desc
 
 
@@ -211,11 +212,13 @@ def history_cases(tier, rng):
         for n in (0, 1):
             for seq in itertools.product(ops, repeat=n):
                 cases.append({"entry": entry, "base": "zod", "ops": list(seq)})
+        for op in ops:
+            cases.append({"entry": entry, "base": "none", "viz": True, "ops": [op]})
         nz = 120 if tier == "quick" else 600
         for _ in range(nz):
             cases.append({"entry": entry, "base": "zod", "ops": [rng.choice(ops), rng.choice(ops)]})
         # every sequence of length 3 over hashed edits (outside every recorded class)
-        for seq in itertools.product(SAFE, repeat=3):
+        for seq in itertools.product(SAFE if tier == "thorough" else SAFE[:6], repeat=3):
             cases.append({"entry": entry, "base": "none", "ops": list(seq)})
         if tier == "thorough":
             for seq in itertools.product(CORE, repeat=3):
